@@ -320,6 +320,15 @@ func finishCheck(p *propDef, tier string, master uint64, recs []*runRec, enumera
 			exit = 2
 		}
 	}
+	noteCount := map[string]int{}
+	for _, r := range recs {
+		for _, nv := range r.res.Notes {
+			noteCount[nv.Property+"/"+nv.Class]++
+		}
+	}
+	if len(noteCount) > 0 {
+		fmt.Printf("notes (other properties' oracles, informational): %v\n", noteCount)
+	}
 	fmt.Printf("vsim check %s: %d runs, %d violations, %d known-finding hits, %d harness problems, %.1fs\n", p.id, len(recs), nviol, sumInts(knownHits), len(harness), time.Since(t0).Seconds())
 	return exit
 }
